@@ -502,7 +502,12 @@ def check_lookup_sequences(chk, ix):
     for meth in ("find_match", "find_step_definition"):
         f = rc.lookup(meth)
         for seq in (("given", "then"), ("then", "given"), ("given", "when"), ("when", "given", "then"), ("given", "given", "then")):
-            for with_generic in (False, True):
+            for with_generic in (False, True, "after clear()"):
+                cleared = with_generic == "after clear()"
+                if cleared:
+                    if len(seq) != 2 or rc.lookup("clear") is None:
+                        continue
+                    with_generic = False
                 stubs = {"DefTok.match": lambda it_, s_, a, k, n: [(s_, "val", ("match-of", s_.obj(a[0]).fields["name"]))],
                          "BadStepDefinitionErrorHandler": lambda it_, s_, a, k, n: [(s_, "val", s_.alloc(HObj("HandlerTok", {}, open=True)))]}
                 it = Interp(ix, stubs=stubs, name="StepRegistry lookups in a row")
@@ -515,6 +520,12 @@ def check_lookup_sequences(chk, ix):
                 if len(outs) != 1 or outs[0][1] != "val":
                     raise AnalysisError("StepRegistry.__init__ not evaluable: %r" % ([(k, v) for _, k, v in outs][:2],))
                 cur = outs[0][0]
+                if cleared:
+                    # a registry that was used and cleared (behave does so between runs) is as good as a new one
+                    outs = it.call_function(cur, rc.lookup("clear"), [], {}, None, self_val=reg)
+                    if len(outs) != 1 or outs[0][1] != "val":
+                        raise AnalysisError("StepRegistry.clear not evaluable: %r" % ([(k, v) for _, k, v in outs][:2],))
+                    cur = outs[0][0]
                 steps = cur.obj(reg).fields.get("steps")
                 if not isinstance(steps, Ref) or cur.obj(steps).items is None:
                     raise AnalysisError("StepRegistry.steps is not a concrete dict after __init__")
@@ -535,9 +546,10 @@ def check_lookup_sequences(chk, ix):
                 chk.instance("M2")
                 want = [("%s-definition" % t) if t in ("given", "then") else ("step-definition" if with_generic else None) for t in seq]
                 if got == want:
-                    chk.ok("M2", {"lookup": meth, "step types in a row": list(seq), "generic definition": with_generic, "bound to": got},
-                           nontrivial_key=(meth, seq, with_generic))
+                    chk.ok("M2", {"lookup": meth, "step types in a row": list(seq), "generic definition": with_generic, "after clear()": cleared, "bound to": got},
+                           nontrivial_key=(meth, seq, with_generic, cleared))
                 else:
-                    _fail(chk, "M2", f, "%s %s generic=%s -> %s" % (meth, "/".join(seq), with_generic, got),
-                          "%s for the steps %s (same text) one after the other binds %s, expected %s: a step must be bound by a definition of its "
-                          "own type (or a generic one), whatever an earlier lookup with the same text found" % (meth, list(seq), got, want), cur.path)
+                    _fail(chk, "M2", f, "%s %s generic=%s%s -> %s" % (meth, "/".join(seq), with_generic, " after clear()" if cleared else "", got),
+                          "%s for the steps %s (same text) one after the other%s binds %s, expected %s: a step must be bound by a definition of its "
+                          "own type (or a generic one), whatever an earlier lookup with the same text found" % (
+                              meth, list(seq), " in a registry that was cleared before the definitions were added" if cleared else "", got, want), cur.path)
